@@ -664,8 +664,8 @@ class GraphicsTerminal:
         if columns is None or lines is None:
             columns, lines = self.get_size()
         self.tracked_cursor_position = (
-            min(x, columns - 1),
-            min(y, lines - 1),
+            max(0, min(x, columns - 1)),
+            max(0, min(y, lines - 1)),
         )
 
     def move_cursor(
